@@ -30,6 +30,9 @@ pub fn user_config(ct: Ct) -> UserConfig {
 pub fn two_node_world(ct: Ct, feerate: u32) -> (World, Vec<lightning::ln::types::ChannelId>) {
 	let mut w = World::new(vec![user_config(ct), user_config(ct)], feerate);
 	let cid = w.open_channel(0, 1, 1_000_000, 400_000_000);
+	if ct != Ct::Static {
+		w.fund_wallets();
+	}
 	(w, vec![cid])
 }
 
